@@ -4,8 +4,8 @@
    distinct field shape of the schema; children: one kind per shape with at most ChildFields fields), then a
    stack-machine Walk (one action per Visit call, as astutil.Walk recurses) traverses it.
    Invariants at the end: the walk's callbacks are the reference pre-order and satisfy EachOnce; the
-   model Clone is accepted by Iso/Disjoint; a shallow clone and a walk that drops a child are rejected
-   (so the judge's predicates are not vacuous). *)
+   model Clone is accepted by Iso/Disjoint; a shallow clone, a walk that drops a child and a walk that
+   "visits" a nil child are rejected (so the judge's predicates are not vacuous). *)
 EXTENDS AstTree, TLC, Json
 CONSTANTS MaxNodes, MaxList, ChildFields
 
@@ -74,5 +74,11 @@ ShallowRejected == phase = "done" /\ Len(nodes) >= 2 => ~Disjoint(G, ShallowClon
 DropLast(s) == LET W == {i \in 1..Len(s) : s[i] # 0 /\ \A j \in (i + 1)..Len(s) : s[j] = 0} IN
                IF W = {} THEN s ELSE LET i == CHOOSE i \in W : TRUE IN SubSeq(s, 1, i - 1) \o SubSeq(s, i + 1, Len(s))
 DroppedRejected == phase = "done" => ~EachOnce(DropLast(log), G, 1)
+\* the model walk makes callbacks with nodes only; a walk that makes a callback with a nil child is rejected, and the
+\* node it was found under is the one the judge names
+WalkOnlyNodes == phase = "done" => OnlyNodes(log)
+SpuriousRejected == phase = "done" => /\ ~OnlyNodes(Spurious(log)) /\ EachOnce(Spurious(log), G, 1)
+                                      /\ OpenAt(Spurious(log), 2) = 1
+                                      /\ \A i \in 1..Len(log) : log[i] # 0 /\ i > 1 => log[OpenAt(log, i)] = ParentOf(G, 1, log[i])
 Bounded == Len(nodes) <= MaxNodes
 =============================================================================
